@@ -139,6 +139,21 @@ def oracle(spec, o):
     for name in ("default", "strict", "http", "sqlstate", "pyodbc"):
         if o[name] not in KL:
             return f"{name}_classifier did not return an ErrorClass: {o[name]}"
+    marker = {"timeout": "TRANSIENT", "permanent": "PERMANENT", "ratelimit": "RATE_LIMIT", "concurrency": "CONCURRENCY",
+              "server": "SERVER_ERROR"}.get(spec["base"])
+    if marker is not None:
+        for name in ("default", "strict"):
+            if o[name] != marker:
+                return f"{name}_classifier: marker type {spec['base']} must win over status/code/name, got {o[name]}"
+    st = spec["attrs"].get("status")
+    if marker is None and st is not None and st["t"] == "int" and int(st["v"]) != 0:
+        z = int(st["v"])
+        want = {401: "AUTH", 403: "PERMISSION", 400: "PERMANENT", 404: "PERMANENT", 422: "PERMANENT", 409: "CONCURRENCY",
+                408: "TRANSIENT", 429: "RATE_LIMIT"}.get(z, "SERVER_ERROR" if 500 <= z < 600 else None)
+        if want is not None:
+            for name in ("default", "strict"):
+                if o[name] != want:
+                    return f"{name}_classifier: status {z} must map to {want} regardless of the type name, got {o[name]}"
     for n, v in o["optional"].items():
         if v != o["default"]:
             return f"{n}_classifier (library absent) returned {v}, default_classifier returned {o['default']}"
